@@ -1,4 +1,71 @@
-(* placeholder until Proofs/RoundTrip.v lands *)
-From Bisturi Require Import Model.Canon.
-Theorem C01_stub : FUEL = 40. Proof. reflexivity. Qed.
-Print Assumptions C01_stub.
+(* C01 -- Parse-then-serialize reproduces the parsed bytes.
+   Model: Model/Unpack.v (parser with its ghost trace of consumed chunks), Model/Pack.v (serializer), Kernel/Frag.v
+   (output buffer and its sparse-array specification).
+
+   FULL STATEMENT (the property): for every declaration of the supported language, every input and start offset on
+   which unpack succeeds, pack() of the result is the sparse array holding every consumed chunk at its position
+   relative to the start offset and '.' elsewhere, and raises PacketError exactly when two consumed chunks overlap.
+   PROVED BELOW (`_partial`): exactly that, for every class table satisfying `ct_rt off` -- i.e. everything EXCEPT
+     * runs of bit fields (CBits): their round trip is Properties/C07.C07_unpack_pack at kernel level, and the
+       whole-packet correspondence (harness/props/C01.py) covers them on the implementation;
+     * what the property itself excludes (a regex delimiter not kept in the value);
+     * start-of-data positioning with an incompatible start offset: there the statement is FALSE of the code
+       (C01_offset_refuted, finding D10);
+   and under three hypotheses the proof needed (each with its refutation in Proofs/RoundTrip.v): the input consists
+   of bytes, no chunk starts beyond the end of the input or before the start offset.
+   The theorems speak of the generic field loop; Properties/C03 proves the generated code equivalent to it. *)
+From Coq Require Import ZArith List Bool.
+From Bisturi Require Import Base.Bytes Kernel.IntCodec Kernel.Align Kernel.Frag Model.Value Model.Decl Model.Unpack Model.Pack
+                            Model.Wf3 Proofs.FragProofs Proofs.RoundTrip.
+Import ListNotations. Open Scope Z_scope.
+
+Theorem C01_roundtrip_partial : forall fuel host dl ct raw c off s e t,
+  wf_bytes raw -> ct_distinct ct = true -> ct_rt off ct = true -> 0 <= off ->
+  unpack_pkt fuel host ct raw c off = POk (VPkt c s) e t -> trace_from off t -> trace_in raw t ->
+  match fold_a aempty (chunk_ops off t) with
+  | Some a => exists v', pack_top fuel host dl ct c s = PBytes (a_tobytes a) v'
+  | None => exists st, pack_top fuel host dl ct c s = PErr st
+  end.
+Proof. exact roundtrip_bytes. Qed.
+
+(* the inductive core: serializing into any buffer replays exactly the inserts "chunk at position - base" *)
+Theorem C01_trace_symmetry : forall fuel host dl ct raw c off base v e t fr,
+  wf_bytes raw -> ct_distinct ct = true -> ct_rt base ct = true -> 0 <= base <= off -> cur fr = off - base ->
+  unpack_pkt fuel host ct raw c off = POk v e t -> trace_from base t -> trace_in raw t ->
+  exists s, v = VPkt c s /\
+    match ins_trace base t fr with
+    | Frag.Ok fr1 => exists v' fr2, pack_pkt fuel host dl ct c s fr = QOk v' fr2 /\ same_content fr2 fr1 /\ cur fr2 = e - base
+    | _ => exists st, pack_pkt fuel host dl ct c s fr = QFail st
+    end.
+Proof. exact roundtrip_trace. Qed.
+
+(* class tables built by the metaclass always have distinct field indices *)
+Theorem C01_describe_distinct : forall p k, describe p = Some k -> nodupb (fidxs (cc_fields k)) = true.
+Proof. exact describe_distinct. Qed.
+
+(* D10: a = Int(1); b = Int(1).aligned(4) [reference: start of data]; parsed at offset 1 of b"X\x01..\x02" and
+   serialized: b is placed at 4 (relative to the output), not at 3 = 4 - 1 *)
+Definition d10_ct : ctab :=
+  [(0, {| cc_conf := empty_conf; cc_gen_pack := false; cc_gen_unpack := false; cc_vectorize := true;
+          cc_fields := [CElem 0 (ELeafE (LInt 1 false None (VInt 0))); CMove 1 (MConst 4) RBegins true;
+                        CElem 1 (ELeafE (LInt 1 false None (VInt 0)))] |})].
+Theorem C01_offset_refuted :
+  ct_rt 1 d10_ct = false /\ ct_rt 0 d10_ct = true /\
+  unpack_pkt 5 false d10_ct [88; 1; 46; 46; 2] 0 1 =
+    POk (VPkt 0 [(FN 0, VInt 1); (FN 1, VInt 2)]) 5 [TChunk 1 [1]; TMove 4; TChunk 4 [2]] /\
+  pack_top 5 false (fun _ _ => []) d10_ct 0 [(FN 0, VInt 1); (FN 1, VInt 2)] =
+    PBytes [1; 46; 46; 46; 2] (VPkt 0 [(FN 0, VInt 1); (FN 1, VInt 2)]).
+Proof. vm_compute. repeat split; reflexivity. Qed.
+
+Example C01_example :
+  exists s e t,
+    unpack_pkt 5 true rt_ex_ct rt_ex_raw 0 2 = POk (VPkt 0 s) e t /\
+    ct_rt 2 rt_ex_ct = true /\ ct_distinct rt_ex_ct = true /\ wf_bytes rt_ex_raw /\
+    trace_from 2 t /\ trace_in rt_ex_raw t /\
+    pack_top 5 true rt_dl0 rt_ex_ct 0 s = PBytes [2; 46; 1; 2; 5; 46; 6; 8] (VPkt 0 s).
+Proof. exact roundtrip_nonvacuous. Qed.
+
+Print Assumptions C01_roundtrip_partial.
+Print Assumptions C01_trace_symmetry.
+Print Assumptions C01_describe_distinct.
+Print Assumptions C01_offset_refuted.
